@@ -203,6 +203,30 @@ def model_schedule(progs_by_name, spec):
     return sched, any(rest)
 
 
+def check_then_act(classes, progs, cls_name="M"):
+    """Requests that take a lock of class `cls_name` (the channel map) in two or more separate
+    critical sections and access the protected value in at least two of them: a look-up and a
+    later update that are not one atomic step.  Not a violation by itself (setup_channel does
+    it under the tracker lock); the names direct the two-thread sweep to these requests."""
+    out = []
+    for p in progs:
+        sections, cur = {}, {}
+        for k, c, i in p["events"]:
+            if classes[c]["name"] != cls_name:
+                continue
+            l = (c, i)
+            if k == "A":
+                cur[l] = 0
+            elif k == "T" and l in cur:
+                cur[l] += 1
+            elif k == "R" and l in cur:
+                sections.setdefault(l, []).append(cur.pop(l))
+        for l, secs in sections.items():
+            if len([x for x in secs if x > 0]) >= 2:
+                out.append({"request": p["name"], "lock": lname(classes, l), "sections": len(secs)})
+    return out
+
+
 def coq_prog(p):
     names = {"A": "Acq", "R": "Rel", "T": "Touch"}
     return "[" + "; ".join("%s (%d, %d)" % (names[k], c, i) for k, c, i in p["events"]) + "]"
